@@ -209,7 +209,7 @@ pub assume_specification [i128::saturating_mul] (a: i128, b: i128) -> (r: i128) 
     U.fn(F, "impl Limiter :: fn acquire", wrap="impl Limiter", ret="r",
          header_subs=[("ctx::Ctx", "Ctx"), ("ctx::OrCanceled<Permit<'a>>", "Result<Permit<'a>, Canceled>")],
          proof_at_start="let ghost mut verif_writes: int = 0; let ghost mut verif_grantable: bool = false;   /* W-ghost */",
-         subs=[("Err(ctx::Canceled)", "Err(canceled_value())"),
+         subs=[("Err(ctx::Canceled)", "Err(canceled_value())", None), ("std::cmp::min(", "verif_min_usize(   /* R-std */", None),
                ("sync::lock(ctx, &self.acquire).await?.into_async()", "lock_acquire(ctx, &self.acquire).await?   /* R-stub */"),
                ("sync::wait_for(ctx, &mut acquire, $C).await?", "wait_for_state(ctx, &mut acquire, $C, Ghost(self)).await?"),
                ("state.refresh_ticks + (state.reserved + permits).saturating_sub(state.permits) as i128",
